@@ -22,8 +22,9 @@ class Scripted(object):
     """Stands in for the `random` module inside rig.geometry / route.utils so that *every* outcome of
     the random tie-breaks can be enumerated: each call is a choice point with a finite option list."""
 
-    def __init__(self, floats):
+    def __init__(self, floats, ends_only=False):
         self.floats = floats
+        self.ends_only = ends_only      # randint over a wide range: both ends, their neighbours and the middle only
         self.script = []
         self.pos = 0
         self.widths = []
@@ -43,6 +44,9 @@ class Scripted(object):
         return self.floats[self._choose(len(self.floats))]
 
     def randint(self, a, b):
+        if self.ends_only and b - a > 5:
+            opts = (a, a + 1, (a + b) // 2, b - 1, b)
+            return opts[self._choose(len(opts))]
         return a + self._choose(b - a + 1)
 
     # The rest of the random module's surface, so that an implementation that draws its tie-breaks another way
@@ -122,6 +126,23 @@ def run(chk):
         thin += [(a, b) for a in range(6, 13) for b in range(1, 5)] + [(b, a) for a in range(6, 13) for b in range(1, 5)]
     scr2 = Scripted([0.0, 0.5])
     scr3 = Scripted([0.0, 0.3, 0.6])
+    # random.random() comes arbitrarily close to 1: on the smallest tori the far end of its range is an outcome too
+    scr2x = Scripted([0.0, 0.5, 1.0 - 2.0 ** -20])
+
+    scr2e = Scripted([0.0, 0.5], ends_only=True)
+
+    # tori beyond the distance tables ("all torus sizes"): real machine sizes, the largest addressable one, very
+    # thin ones; judged by the least mesh distance to an image of the destination (TorusCover), sampled pairs
+    # that include the seams and the half-way offsets where the four wrap cases meet
+    bigsizes = [(13, 7), (24, 12), (48, 24), (96, 60), (255, 256), (256, 255), (256, 256), (256, 1), (1, 200),
+                (2, 256), (100, 3), (40, 2), (17, 16)]
+    if chk.quick:
+        bigsizes = bigsizes[:3] + rng.sample(bigsizes[3:], 6)
+
+    def big_points(w, h):
+        xs = set(c % w for c in (0, 1, w - 1, w // 2, (w + 1) // 2, w // 2 - 1, rng.randrange(w), rng.randrange(w)))
+        ys = set(c % h for c in (0, 1, h - 1, h // 2, (h + 1) // 2, h // 2 - 1, rng.randrange(h), rng.randrange(h)))
+        return [(x, y) for x in sorted(xs) for y in sorted(ys)]
 
     chk.design("HexDesign", "HexDesign_%s.cfg" % chk.tier, expect_actions=("Step",))
 
@@ -135,18 +156,34 @@ def run(chk):
     # ---- torus functions
     sizes = [(w, h) for w in range(1, maxw + 1) for h in range(1, maxw + 1)]
     sizes += [wh for wh in thin if wh not in sizes]
+    sizes += bigsizes
     for (w, h) in sizes:
         if True:
             evs = []
-            chips = [(x, y) for x in range(w) for y in range(h)]
-            if (w <= full and h <= full) or ((w, h) in thin and chk.quick is False):
+            isbig = w > MAXW or h > MAXW
+            if isbig:
+                pts = big_points(w, h)
+                srcs = rng.sample(pts, 3)
+                chips = None
+            else:
+                chips = [(x, y) for x in range(w) for y in range(h)]
+            if isbig:
+                pass
+            elif (w <= full and h <= full) or ((w, h) in thin and chk.quick is False):
                 srcs = chips
             elif (w, h) in thin:
                 srcs = rng.sample(chips, min(2 * nsrc, len(chips)))
             else:
                 srcs = rng.sample(chips, min(nsrc, len(chips)))
             for s in srcs:
-                for d in chips:
+                if isbig:
+                    dests = rng.sample(pts, min(len(pts), 7))
+                    dests += [((s[0] + w // 2 + rng.randint(-1, 1)) % w, (s[1] + h // 2 + rng.randint(-1, 1)) % h)
+                              for _ in range(3)]
+                    dests += [((s[0] + dx_) % w, (s[1] + dy_) % h) for dx_, dy_ in ((1, 1), (-1, -1), (-1, 0), (0, -1))]
+                else:
+                    dests = chips
+                for d in dests:
                     sf = xyz_forms(s[0], s[1], rng)
                     df = xyz_forms(d[0], d[1], rng)
                     for rep in range(3):
@@ -154,11 +191,13 @@ def run(chk):
                         n = geometry.shortest_torus_path_length(S, D, w, h)
                         evs.append(["tlen", list(S), list(D), int(n)])
                         vecs = set()
-                        if (w <= full and h <= full) or (w, h) in thin:
-                            # every outcome of the tie-breaks (which minimal wrap, how many spirals)
-                            geometry.random = scr2
+                        if (w <= full and h <= full) or (w, h) in thin or (s == srcs[0] and rep == 0):
+                            # every outcome of the tie-breaks (which minimal wrap, how many spirals); beyond the
+                            # fully enumerated sizes for one source and representation (every offset of the torus)
+                            scr = scr2x if w * h <= 9 else scr2e if isbig else scr2
+                            geometry.random = scr
                             try:
-                                for v in scr2.outcomes(lambda: geometry.shortest_torus_path(S, D, w, h)):
+                                for v in scr.outcomes(lambda: geometry.shortest_torus_path(S, D, w, h)):
                                     vecs.add(tuple(int(c) for c in v))
                             finally:
                                 geometry.random = random
@@ -216,6 +255,13 @@ def run(chk):
                 dead = set()
                 for _ in range(rng.randint(0, 4)):
                     dead.add((rng.randrange(w), rng.randrange(h), Links(rng.randrange(6))))
+                # ... some of them on the very chips asked about, at either end of a hop (a dead link is dead at
+                # the chip it leaves from, and only there)
+                for (x, y) in srcs[:4]:
+                    if rng.random() < 0.6:
+                        l = Links(rng.randrange(6))
+                        dx, dy = l.to_vector()
+                        dead.add(rng.choice(((x, y, l), ((x + dx) % w, (y + dy) % h, l.opposite), (x, y, l.opposite))))
                 mach = Machine(w, h, dead_links=dead)
                 for (x, y) in srcs[:4]:
                     others = set(((x + dx) % w, (y + dy) % h) for dx, dy in ((1, 0), (1, 1), (0, 1), (-1, 0), (-1, -1), (0, -1)))
@@ -294,7 +340,104 @@ def run(chk):
             seq = [[int(x), int(y)] for x, y in geometry.concentric_hexagons(r, start)]
             evs.append(["hex", r, start[0], start[1], seq])
             chk.note_case(("hex", r, start), nontrivial=r > 0)
+    # ---- the callers' other ways of asking (defaults left out, keywords), two generators alive at once, large radii
+    for _ in range(chk.pick(40, 300)):
+        v = tuple(rng.randint(-5, 5) if rng.random() < 0.8 else 0 for _ in range(3))
+        random.seed(chk.seed + _)
+        how = rng.randrange(4)
+        try:
+            if how == 0:
+                p, st, ww, wh = longest_dimension_first(v), (0, 0), None, None
+            elif how == 1:
+                ww, wh = rng.choice(((7, 5), (None, 4), (6, None), (2, 3), (1, 4), (300, 2), (3, 1)))
+                p, st = longest_dimension_first(v, width=ww, height=wh), (0, 0)
+            elif how == 2:
+                ww, wh = rng.choice(((255, 256), (256, 13), (48, 24), (13, 256), (1000, 999)))
+                st = (rng.choice((0, 1, ww - 1, ww - 2, ww // 2)), rng.choice((0, 1, wh - 1, wh - 2, wh // 2)))
+                p = longest_dimension_first(vector=v, start=st, height=wh, width=ww)
+            else:
+                st = (rng.randint(-40000, 40000), rng.randint(-300, 300))
+                ww, wh = None, None
+                p = longest_dimension_first(v, start=st)
+        except Exception as ex:          # judged by the specification
+            evs.append(["raise", "longest_dimension_first", list(v), type(ex).__name__])
+            continue
+        evs.append(["ldf", list(v), list(st), ww or 0, wh or 0, [[int(a), int(b[0]), int(b[1])] for a, b in p]])
+        chk.note_case(("ldf-call", how, v, st, ww, wh), nontrivial=any(v))
+    for r in (0, 1, 2, 3, 5) + chk.pick((rng.choice((8, 9, 10, 11)), rng.choice((12, 13)), 14), tuple(range(7, 15))):
+        far = (rng.choice((-1, 1)) * rng.randint(200, 2 ** 29), rng.choice((-1, 1)) * rng.randint(200, 2 ** 29))
+        try:
+            runs = [((0, 0), list(geometry.concentric_hexagons(r))),
+                    (far, list(geometry.concentric_hexagons(start=far, radius=r)))]
+            # two callers taking turns (and a third, of another radius, in between)
+            sa, sb = (rng.randint(-9, 9), rng.randint(-9, 9)), (rng.randint(-9, 9), rng.randint(-9, 9))
+            ga, gb = geometry.concentric_hexagons(r, sa), geometry.concentric_hexagons(r, sb)
+            gc = geometry.concentric_hexagons(r + 1, (5, 5))
+            la, lb_ = [], []
+            live = [(ga, la), (gb, lb_), (gc, [])]
+            while live:
+                g, out = live[rng.randrange(len(live))]
+                for _ in range(rng.randint(1, 4)):
+                    try:
+                        out.append(next(g))
+                    except StopIteration:
+                        live = [gl for gl in live if gl[0] is not g]
+                        break
+            runs += [(sa, la), (sb, lb_)]
+        except Exception as ex:          # judged by the specification
+            evs.append(["raise", "concentric_hexagons", [r], type(ex).__name__])
+            continue
+        for st, seq in runs:
+            evs.append(["hex", r, st[0], st[1], [[int(x), int(y)] for x, y in seq]])
+            chk.note_case(("hex-call", r, st), nontrivial=r > 0)
+    # ---- vectors far out in the mesh (as the lengths above): shortest_mesh_path and minimise_xyz
+    for _ in range(chk.pick(150, 1500)):
+        base = rng.choice((2 ** 8, 2 ** 16, 2 ** 31, 2 ** 53, 2 ** 53 + 1, 2 ** 55 + 3, 2 ** 56 - 1))
+        S = tuple(rng.choice((0, 1, -1, base, -base, base // 2 + 1)) + rng.randint(-9, 9) for _ in range(3))
+        D = tuple(rng.choice((0, 1, -1, base, -base, base // 2 + 1)) + rng.randint(-9, 9) for _ in range(3))
+        for name, fn, S_ in (("shortest_mesh_path", lambda: geometry.shortest_mesh_path(S, D), S),
+                             ("minimise_xyz", lambda: geometry.minimise_xyz(D), (0, 0, 0))):
+            try:
+                v = fn()
+                v = tuple(int(c) if c == int(c) and -2 ** 59 < c < 2 ** 59 else 2 ** 59 for c in v)
+            except Exception as ex:          # judged by the specification
+                evs.append(["raise", name, [], type(ex).__name__])
+                continue
+            evs.append(["mvecbig", [big(c) for c in S_], [big(c) for c in D], [big(c) for c in v]])
+            chk.note_case(("mvecbig", name, S_, D))
     flush(0, 0, evs)
+
+    # ---- three-axis representations far from the canonical one: the same chip written with a very large third
+    # coordinate.  The trace carries the chip as (x, y, 0) when the numbers given to rig are beyond TLC's integers
+    # (the representation is the driver's own construction from (x, y), not something read back from rig).
+    farsizes = [wh for wh in sizes if wh[0] * wh[1] > 1]
+    for (w, h) in rng.sample(farsizes, chk.pick(40, len(farsizes))):
+        evs = []
+        for _ in range(4):
+            s = (rng.randrange(w), rng.randrange(h))
+            d = (rng.randrange(w), rng.randrange(h))
+            ks = [rng.choice((1, -1)) * rng.choice((w, h, w * h + 1, 255, 1000, 2 ** 31 + 5, 2 ** 53 + 1, 2 ** 64 + 3))
+                  for _ in range(2)]
+            S = (s[0] + ks[0], s[1] + ks[0], ks[0])
+            D = (d[0] + ks[1], d[1] + ks[1], ks[1])
+            small = all(abs(k) < 2 ** 20 for k in ks)
+            rS, rD = (list(S), list(D)) if small else ([s[0], s[1], 0], [d[0], d[1], 0])
+            clamp = lambda c: int(c) if c == int(c) and abs(c) < 2 ** 28 else 2 ** 28
+            try:
+                n = geometry.shortest_torus_path_length(S, D, w, h)
+                evs.append(["tlen", rS, rD, clamp(n)])
+                random.seed(chk.seed + _)
+                v = geometry.shortest_torus_path(S, D, w, h)
+                evs.append(["tvec", rS, rD, [clamp(c) for c in v]])
+                if w <= MESHN and h <= MESHN:       # (the mesh tables end there)
+                    n = geometry.shortest_mesh_path_length(S, D)
+                    evs.append(["mlen", rS, rD, clamp(n)])
+                    v = geometry.shortest_mesh_path(S, D)
+                    evs.append(["mvec", rS, rD, [clamp(c) for c in v]])
+            except Exception as ex:          # judged by the specification
+                evs.append(["raise", "far representation", [], type(ex).__name__])
+            chk.note_case(("far-rep", w, h, S, D), nontrivial=s != d)
+        flush(w, h, evs)
 
     chk.rule = ("torus: every (source, destination) pair for W,H<=%d and %d sampled sources per size up "
                 "to %d, three three-axis representations each, %d tie-break seeds; mesh offsets within "
